@@ -290,6 +290,11 @@ impl Default for Cfg {
 }
 
 /// Ticks announced by `MutateTickReceived`, in order of observation.
+/// `a` is older than `b` in wrap-around tick arithmetic (distances below 2^31).
+pub fn tick_older(a: u32, b: u32) -> bool {
+    (a.wrapping_sub(b) as i32) < 0
+}
+
 #[derive(Resource, Default)]
 pub struct MutateTicksSeen(pub Vec<u32>);
 
@@ -1198,7 +1203,8 @@ impl Sim {
                 .map(|c| self.is_authorized(c))
                 .collect();
             // send-once components: which (client, entity) received the component in full at this tick
-            let prev_tick = self.snaps.keys().next_back().copied();
+            // the previous tick (not the largest key: tick numbers wrap around)
+            let prev_tick = Some(before).filter(|p| self.snaps.contains_key(p));
             for c in 0..self.clients.len() {
                 if !auth[c] {
                     continue;
@@ -1599,7 +1605,7 @@ impl Sim {
             let Some(t) = ce.last_tick else { continue };
             let key = (c, ce.client_bits);
             if let Some(&prev) = self.prev_confirmed.get(&key) {
-                if t < prev {
+                if tick_older(t, prev) {
                     return Err(Violation::new(
                         "",
                         "confirmed-tick-decreased",
